@@ -15,6 +15,7 @@
 (*   LB  loop body ... END LOOP        WB  WHILE..DO body ... END WHILE      *)
 (*   CS  CASE statement ... END CASE   CS2 after END, before CASE            *)
 (*   ES  expects the inner `;`         CE  after the final END: expects `;`  *)
+(*   DI  initialiser of a declaration (`v int := <expr> ;`)                  *)
 (***************************************************************************)
 EXTENDS Naturals, Integers, Sequences, FiniteSets
 
@@ -37,6 +38,8 @@ Mv(t, st, fin)  == [t |-> t, st |-> st, fin |-> fin]
 Stay(stk, toks) == { Mv(t, stk, FALSE) : t \in toks }
 
 InBody(stk) == \E i \in 1..Len(stk) : stk[i] = "B0"
+\* inside the header of a CREATE with a body (parameter list, trigger WHEN clause, DECLARE initialiser): before any BEGIN
+InHeader(stk) == \E i \in 1..Len(stk) : stk[i] \in {"CH", "DI"}
 
 \* statements that may start inside a body-like frame
 BodyStarts(stk) ==
@@ -58,7 +61,8 @@ Expr(stk) ==
     \* IF / FOR outside procedural bodies: CREATE TABLE IF NOT EXISTS, DROP ... IF EXISTS, SELECT ... FOR UPDATE
     \cup (IF "plainkw" \in Allow /\ Top(stk) \in {"P", "R"} THEN Stay(stk, { Tok("if", "if"), Tok("for", "for") }) ELSE {})
     \cup (IF CanPush(stk) THEN { Mv(Tok("lp", "lp"), Push(stk, "R"), FALSE) } ELSE {})
-    \cup (IF CanPush(stk) /\ ("caseexpr" \in Allow \/ ("caseexpr_body" \in Allow /\ InBody(stk)))
+    \cup (IF CanPush(stk) /\ ("caseexpr" \in Allow \/ ("caseexpr_body" \in Allow /\ InBody(stk))
+                             \/ ("caseexpr_header" \in Allow /\ InHeader(stk)))
             THEN { Mv(Tok("case", "case"), Push(stk, "CX"), FALSE) } ELSE {})
 
 JunkToks == Gap \cup { Tok("other", "name"), Tok("other", "num"), Tok("other", "str"), Tok("kw", "kw"),
@@ -102,7 +106,9 @@ Moves(stk) ==
            \cup { Mv(Tok("other", "name"), Repl(stk, "DS1"), FALSE) }
       [] f = "DS1" ->
            Stay(stk, { Tok("other", "type"), Tok("ws", "ws") })
+           \cup (IF "caseexpr_header" \in Allow THEN { Mv(Tok("other", "assign"), Repl(stk, "DI"), FALSE) } ELSE {})
            \cup { Mv(Tok("semi", "semi"), Repl(stk, "DS2"), FALSE) }
+      [] f = "DI" -> Expr(stk) \cup { Mv(Tok("semi", "semi"), Repl(stk, "DS2"), FALSE) }
       [] f = "DS2" ->
            Stay(stk, { Tok("ws", "ws"), Tok("nl", "nl") })
            \cup { Mv(Tok("other", "name"), Repl(stk, "DS1"), FALSE), Mv(Tok("begin", "begin"), Repl(stk, "B0"), FALSE) }
@@ -137,7 +143,7 @@ Moves(stk) ==
 Closing(stk) ==
     LET f == Top(stk)
         want == CASE f = "P" -> {"semi"} [] f = "R" -> {"rp"} [] f = "CX" -> {"end"}
-                  [] f = "CH" -> {"begin"} [] f = "DS" -> {"name"} [] f = "DS1" -> {"semi"} [] f = "DS2" -> {"begin"} [] f = "B0" -> {"end"}
+                  [] f = "CH" -> {"begin"} [] f = "DS" -> {"name"} [] f = "DS1" -> {"semi"} [] f = "DI" -> {"semi"} [] f = "DS2" -> {"begin"} [] f = "B0" -> {"end"}
                   [] f = "B" -> {"end"} [] f = "S" -> {"semi"} [] f = "S0" -> {"semi"} [] f = "SA" -> {"name"} [] f = "IC" -> {"then"}
                   [] f = "IB" -> {"endif"} [] f = "FH" -> {"loop"} [] f = "WH" -> {"loop", "do"}
                   [] f = "LB" -> {"endloop"} [] f = "WB" -> {"endwhile"} [] f = "CS" -> {"end"}
